@@ -9,6 +9,32 @@ COMMON_T = [
 ]
 
 PROPS = {
+    "C02": {
+        "units": ["storage", "http"],
+        "design_ref": "DESIGN.md section 5 C02",
+        "technique": "Verus function contracts over a ghost file-system map (POSIX open/write semantics in the trusted shim)",
+        "text": "Deductive proof that write_file leaves exactly the given bytes in the target file for every previous content "
+                "(longer, shorter, none) and touches no other file; that the key file gets the PEM of the given key; and that the "
+                "certificate body handed to storage is the response body of the download.",
+        "assumptions": [
+            "T: POSIX semantics of open(2)/write as stated in prelude/fs.rs (no O_TRUNC keeps the old tail; mode applies at creation)",
+            "T: KeyPair::private_key_to_pem / from_pem are inverse where defined (uninterpreted key_pem / pem_key)",
+            "X: crash points (a write interrupted half-way); the file name/path text produced by get_file_full_path (template rendering)",
+        ],
+    },
+    "C13": {
+        "units": ["storage"],
+        "design_ref": "DESIGN.md section 5 C13",
+        "technique": "Verus function contracts over ghost open/chown events",
+        "text": "Deductive proof that a created file gets the mode configured for its type (0600 pinned for accounts), that key and "
+                "certificate files get exactly one chown after the write with the uid/gid resolved by number or by name, account files none, "
+                "and that a failed resolution is an error.",
+        "assumptions": [
+            "T: open(2) applies mode & ~umask at creation only; nix user/group lookup as modelled (user_db/group_db)",
+            "T: `s.bytes().all(|b| b.is_ascii_digit())` and `s.parse::<u32>()` are the uninterpreted all_digits / parse_u32_spec",
+            "X: how FileManager is filled from the configuration (MainEventLoop::new); observing real files",
+        ],
+    },
     "C08": {
         "units": ["http"],
         "design_ref": "DESIGN.md section 5 C08",
